@@ -27,7 +27,7 @@ OPTS = [(False, False), (True, False), (False, True), (True, True)]
 
 def logic_corpus(tier, seed):
     items = []
-    nls = netlist.g2_shapes() + scratch_shapes() + netlist.g3_random(seed, 30 if tier == 'quick' else 300)
+    nls = netlist.g2_shapes() + scratch_shapes() + netlist.g3_random(seed, 30 if tier == 'quick' else 600)
     for j, nl in enumerate(nls):
         for style in (('verilog', 'bench', 'lean') if tier == 'thorough' or j < 30 else (('verilog', 'bench', 'lean')[j % 3],)):
             for m in (2, 4, 8):
